@@ -162,6 +162,9 @@ def case(draw, mmax=8, allow_r=True, force_m=None):
         c["relative"] = False
     if allow_r and draw(st.integers(0, 3)) == 0:
         c["r"] = [draw(fl(0.05, 1.0)) for _ in range(m)] if draw(st.booleans()) else [1.0] * m
+    c["f32default"] = draw(st.sampled_from([False, False, True]))
+    # further parameter sets evaluated in the same call (a sample dimension): factors for R and for the positive rho's
+    c["brows"] = [[draw(logu(0.5, 2.0)), draw(fl(0.3, 1.0))] for _ in range(draw(st.sampled_from([0, 0, 1, 2])))]
     return c
 
 
@@ -200,7 +203,7 @@ def spec_of(c):
 
 def evaluate(c):
     dic = {}
-    for el in spec_of(c):
+    for el in (tt.explicit64(spec_of(c)) if c.get("f32default") else spec_of(c)):
         tt.build(el, dic)
     return dic["bdsk"], dic
 
@@ -235,8 +238,15 @@ def pretags(c):
 
 
 def body(c):
+    # the route of the real program: torch's default dtype stays float32, every Parameter is explicitly float64
+    with tt.default_dtype(torch.float32 if c.get("f32default") else torch.float64):
+        return _body(c)
+
+
+def _body(c):
     nt, key, labels, tags = classify(c)
-    res = Res(nontrivial=nt, key=key, labels=labels, tags=tags)
+    labels = labels + (("default_dtype_float32",) if c.get("f32default") else ())
+    res = Res(nontrivial=nt, key=key + (bool(c.get("f32default")),), labels=labels, tags=dict(tags, f32default=bool(c.get("f32default"))))
     model, dic = evaluate(c)
     v = arr(model()).reshape(-1)
     ref = reference(c)
@@ -250,6 +260,27 @@ def body(c):
         w = arr(model()).reshape(-1)
         if w.size != 1 or not np.isfinite(w).all() or abs(w[0] - ref) > 1e-8 * max(1.0, abs(ref)):
             return res.fail("re_evaluation", {"first": float(v[0]), "evaluation": rep + 2, "value": w.tolist(), "reference": ref}, reeval=True)
+    if c.get("brows"):
+        rows = [c] + [dict(c, R=[x * f for x in c["R"]], rho=[x * g for x in c["rho"]]) for f, g in c["brows"]]
+        rows = rows[1:] + rows[:1]
+        dt = dic["R"].tensor.dtype
+        for name in ("R", "delta", "s", "rho"):
+            dic[name].tensor = torch.tensor([r[name] for r in rows], dtype=dt)
+        if "r" in c:
+            dic["r"].tensor = torch.tensor([c["r"] for _ in rows], dtype=dt)
+        dic["origin"].tensor = dic["origin"].tensor.expand(len(rows), -1).clone()
+        got, exc = guarded(model)
+        if exc is not None:
+            res.labels = res.labels + ("batched_raises",)
+            return res
+        got = arr(got).reshape(-1)
+        refs = [reference(r) for r in rows]
+        res.labels = res.labels + ("batched_rows=%d" % len(rows),)
+        if got.shape != (len(rows),) or not np.isfinite(got).all():
+            return res.fail("nonfinite", {"what": "batched parameters", "value": got.tolist(), "reference": refs}, batched=True)
+        for k, r in enumerate(refs):
+            if abs(got[k] - r) > 1e-8 * max(1.0, abs(r)):
+                return res.fail("mismatch", {"what": "batched parameters", "row": k, "value": got.tolist(), "reference": refs}, batched=True)
     return res
 
 
